@@ -198,7 +198,10 @@ theorem tie_v1Diff (old_vinfo new_vinfo : V1Info) (file_patterns : List (Str × 
             | error e => rfl
             | ok b =>
               simp only []
-              cases (a != b) <;> cases st <;> rfl
+              -- `if old != new: flag = True`, `if old == new: pass else: flag = True`, `flag = flag or old != new` … all mean the same
+              by_cases hab : a = b
+              · subst hab; cases st <;> simp
+              · cases st <;> simp [hab]
         simp only [tie_v1RfdFromContent it.2 new_vinfo content _ hit, Bool.false_or]
         cases v1HasUpdatedVersion old_vinfo new_vinfo (it.2.map Pattern.abs) with
         | error e => rfl
